@@ -158,6 +158,7 @@ def run(ctx):
     RS.matrix_rules(ctx, "R10.d")
     RS.memo_coherence(ctx, "R10.a")
     RS.consistency_group(ctx, "R10.b")
+    RS.length_lockstep(ctx, "R10.b")
     hidden_state_inventory(ctx, "R10.e", cells)
     from . import C20 as RC20
     RC20.buffer_rules(ctx, "R20.c", None, None)
@@ -165,5 +166,5 @@ def run(ctx):
                 "first observing use on every path (or every exit passes a full reset); R10.a: the memoised ranking is reused "
                 "only under a validation of scalar deps and is reset by every entry point that changes collection deps; "
                 "R10.b: every entry point that changes `records` changes the whole group defined by the canonical mutation "
-                "Store::add; R10.d: matrix growth does resize+size+init together, borders are rebuilt on every call, prepare "
+                "Store::add, and records / next_ix / index change by the same abstract amount (+1 or reset) on every path of every Store method; R10.d: matrix growth does resize+size+init together, borders are rebuilt on every call, prepare "
                 "dominates all accesses; R10.e: closed inventory of interior-mutable cells and thread-locals on the &self path.")
